@@ -129,7 +129,7 @@ fn load_cdp_step(payload: u16, skip: bool) {
     core::mem::forget(pl);
 }
 
-// @harness id=bnd_load_cdp_p0 props=C03,C07,C18,C04 kind=bnd tier=thorough bound=payload=0B fns=InputScanner::load_cdp,InputScanner::load_rdh_cru,InputScanner::load_payload_raw,InputScanner::current_mem_pos stubs=invalid_rdh_offset,flume::Sender::send,alloc::fmt::format
+// @harness id=bnd_load_cdp_p0 props=C03,C07,C18,C04 kind=bnd tier=manual bound=payload=0B fns=InputScanner::load_cdp,InputScanner::load_rdh_cru,InputScanner::load_payload_raw,InputScanner::current_mem_pos stubs=invalid_rdh_offset,flume::Sender::send,alloc::fmt::format
 #[kani::proof]
 #[kani::stub(invalid_rdh_offset, stub_invalid_rdh_offset)]
 #[kani::stub(flume::Sender::send, stub_send)]
@@ -138,7 +138,7 @@ fn load_cdp_step(payload: u16, skip: bool) {
 fn bnd_load_cdp_p0() {
     load_cdp_step(0, false);
 }
-// @harness id=bnd_load_cdp_p16 props=C03,C07,C18,C04 kind=bnd tier=thorough bound=payload=16B fns=InputScanner::load_cdp,InputScanner::load_rdh_cru,InputScanner::load_payload_raw stubs=invalid_rdh_offset,flume::Sender::send,alloc::fmt::format
+// @harness id=bnd_load_cdp_p16 props=C03,C07,C18,C04 kind=bnd tier=manual bound=payload=16B fns=InputScanner::load_cdp,InputScanner::load_rdh_cru,InputScanner::load_payload_raw stubs=invalid_rdh_offset,flume::Sender::send,alloc::fmt::format
 #[kani::proof]
 #[kani::stub(invalid_rdh_offset, stub_invalid_rdh_offset)]
 #[kani::stub(flume::Sender::send, stub_send)]
